@@ -207,7 +207,7 @@ CHECKS["C19"] = dict(
     assumptions=["transport replaced by an in-process IClient (no TCP, no RequestId matching under goroutines); sequential use with timeout 0"],
     harnesses=[
         dict(pkg="server", name="C19_primitives", bound="Lock (2 objects), RLock (depth 1..3, 2 objects), Semaphore(n) and MaxConcurrentFlow(n) with symbolic n in 1..4 and 6 acquires + 1 release, RWLock (writer/readers in both orders)", flags=["-witness", "1"], reach=["end"]),
-        dict(pkg="server", name="C19_event", bound="two client.Event objects on one key in default-set and default-clear mode: every program of 4 operations from {Set, Clear, IsSet, Wait(0), Wait(5)} by either object, against a boolean; waits that have to wait are tracked on the server and must be released by the next Set and not before", flags=["-witness", "500"], reach=["end"]),
+        dict(pkg="server", name="C19_event", bound="two client.Event objects on one key in default-set and default-clear mode: every program of 4 operations from {Set, Clear, IsSet, Wait(0), Wait(5), Wait(2), 3 s pass} by either object, against a boolean; waits that have to wait are tracked on the server and must be released by the next Set and not before — in particular not when another wait on the event gives up (its 2 s timeout passes: TIMEOUT for it, nothing for the others)", flags=["-witness", "2000"], reach=["end", "short-wait-timed-out"]),
         dict(pkg="server", name="C19_priority", bound="a PriorityLock holder and 2..3 PriorityLock waiters with symbolic priorities 0..3: each release hands the key to the highest waiting priority, first come among equals", flags=["-witness", "1"], reach=["end"]),
     ],
 )
